@@ -27,6 +27,7 @@ cp $SRC/seed_demo.rs tests/seed_demo.rs
 RUSTFLAGS="$RFL" timeout 600 cargo test --offline $FARG --test seed_demo >$WT/demo_with.log 2>&1; DW=$?
 git checkout -q -- src
 RUSTFLAGS="$RFL" timeout 600 cargo test --offline $FARG --test seed_demo >$WT/demo_without.log 2>&1; DWO=$?
-echo "$R,\"apply\":true,\"build_rc\":$B,\"suite_rc\":$S,\"suite_failed\":$FAILED,\"suite_passed\":${PASSED:-0},\"demo_with_rc\":$DW,\"demo_without_rc\":$DWO,\"features\":\"$FEAT\",\"rustflags\":\"$RFL\",\"compile_demo\":${COMPILE:-0}}"
+WC=$(grep -c "could not compile\|^error\[E" $WT/demo_with.log); WOC=$(grep -c "could not compile\|^error\[E" $WT/demo_without.log)
+echo "$R,\"with_compile_errors\":$WC,\"without_compile_errors\":$WOC,\"apply\":true,\"build_rc\":$B,\"suite_rc\":$S,\"suite_failed\":$FAILED,\"suite_passed\":${PASSED:-0},\"demo_with_rc\":$DW,\"demo_without_rc\":$DWO,\"features\":\"$FEAT\",\"rustflags\":\"$RFL\",\"compile_demo\":${COMPILE:-0}}"
 grep -E "panicked|assert|FAILED|error(\[|:)" $WT/demo_with.log | head -4 | sed 's/^/    with: /' | cut -c1-220
 cd /; git -C /repo worktree remove --force $WT
